@@ -402,6 +402,10 @@ where
                 self.signal_pending = match self.signal_pending {
                     // no signal pending, so signal all *other* machines
                     None => Some(SignalTarget::AllExcept(mi)),
+                    // the same machine signalling again is still the lone signaller
+                    Some(SignalTarget::AllExcept(excluded)) if excluded == mi => {
+                        Some(SignalTarget::AllExcept(mi))
+                    }
                     // signal already pending from another machine, so signal
                     // all machines (including this one)
                     _ => Some(SignalTarget::All),
